@@ -121,6 +121,11 @@ void apply_op(view_t<D>& cur, op_t const& o, any_view& out) {
 #pragma GCC diagnostic pop
 			put<D - 1>(out, norm(cur.flatted()));
 		} else { throw unsupported{"flatted D<2"}; }
+	} else if(n == "halved") {
+		if constexpr(D < MAXD) { put<D + 1>(out, norm(cur.halved())); } else { throw unsupported{"dim"}; }
+	} else if(n == "sliced3") { put<D>(out, norm(cur.sliced(a[0], a[1], a[2])));
+	} else if(n == "tilde") {
+		if constexpr(D >= 2) { put<D>(out, norm(~cur)); } else { throw unsupported{"tilde D<2"}; }
 	} else if(n == "partitioned") {
 		if constexpr(D < MAXD) { put<D + 1>(out, norm(cur.partitioned(a[0]))); } else { throw unsupported{"dim"}; }
 	} else if(n == "chunked") {
